@@ -24,11 +24,11 @@ func (e *plainErr) Error() string { return e.msg }
 // VerifC05_e1_do: declared errors reach the client as the same error, others
 // follow the default mapping; exactly one response in every case.
 func VerifC05_e1_do() {
-	msg := nondetStringUpTo("msg", 2)
+	msg := nondetStringUpTo("msg", deep(2))
 	code := nondetInt("code")
 	var detail *string
 	if nondetBool("detail-set") {
-		d := nondetStringUpTo("detail", 1)
+		d := nondetStringUpTo("detail", deep(1))
 		detail = &d
 	}
 	to, te, fa := nondetBool("timeout"), nondetBool("temporary"), nondetBool("fault")
